@@ -119,6 +119,9 @@ def maskLower (t : Rat) (xs : List Rat) : List Bool := xs.map (fun x => decide (
 /-- `x >= upper_threshold` -/
 def maskUpper (t : Rat) (xs : List Rat) : List Bool := xs.map (fun x => decide (x ≥ t))
 
+/-- `(x > lower_threshold) & (x < upper_threshold)` -/
+def maskMiddle (tl tu : Rat) (xs : List Rat) : List Bool := xs.map (fun x => decide (x > tl) && decide (x < tu))
+
 /-- the two raw counts of `step6` (`0` where the variable has no threshold on that side; `none` = no threshold) -/
 def rawCounts (adjust : Bool) (lthr uthr : Option Rat) (obs cmh cmf : List Rat) : Int × Int :=
   ((match lthr with
@@ -145,5 +148,35 @@ def step6Tie (adjust : Bool) (lthr uthr : Option Rat) (obs cmh cmf : List Rat) :
   (match uthr with
     | some t => nrTie adjust (maskUpper t obs) (maskUpper t cmh) (maskUpper t cmf)
     | none => false)
+
+/-! ### The thresholds as instance state: attribute assignments and uses in any order
+
+The real object keeps `lower_threshold` / `upper_threshold` as plain attributes and derives `has_lower_threshold` /
+`has_upper_threshold` from their *current* values on every use.  The specification is therefore cache-free: the state
+is the pair of attribute values (`none` = infinite = no threshold), an assignment replaces one of them, a use reads
+them and leaves the state as it is. -/
+
+structure ThrState where
+  lower : Option Rat
+  upper : Option Rat
+deriving DecidableEq, Repr
+
+inductive ThrEvent where
+  | setLower (t : Option Rat)
+  | setUpper (t : Option Rat)
+  | use
+deriving DecidableEq, Repr
+
+def ThrState.step (s : ThrState) : ThrEvent → ThrState
+  | .setLower t => { s with lower := t }
+  | .setUpper t => { s with upper := t }
+  | .use => s
+
+/-- the state after a sequence of events -/
+def ThrState.run (s : ThrState) (es : List ThrEvent) : ThrState := es.foldl ThrState.step s
+
+/-- the counts a use computes in state `s` -/
+def thrCountsOf (adjust : Bool) (s : ThrState) (obs cmh cmf : List Rat) : Int × Int :=
+  step6Counts adjust s.lower s.upper obs cmh cmf
 
 end Model.IsimipFreq
